@@ -66,6 +66,15 @@ Theorem C06_covered_parts : forall o c p1 r1 p2 r2,
 Proof. exact covered_parts. Qed.
 Print Assumptions C06_covered_parts.
 
+(** the body hash that enters the canonical request during verification is the hash of the
+    buffered payload (or the excludeBody marker): a payload hash announced in a header
+    (X-Me-Content-Sha256) has no influence, whatever its value *)
+Theorem C06_sig_body_hash_is_payload : forall o c r r',
+  (r_payload r = r_payload r' -> body_hash ideal o c r = body_hash ideal o c r') /\
+  body_hash ideal o c r = (if s_exclude_body c then "UNSIGNED-PAYLOAD" else o_sha o (r_payload r)).
+Proof. exact (fun o c r r' => conj (body_hash_of_payload ideal o c r r') (body_hash_ideal o c r)). Qed.
+Print Assumptions C06_sig_body_hash_is_payload.
+
 (** JWT: accepted iff three segments, the header's alg is the configured HS algorithm, the claims
     are currently valid and the signature segment is exactly the MAC text of
     header.claims under the configured secret *)
